@@ -10,6 +10,7 @@ use vstd::std_specs::cmp::*;
 use std::rc::Rc;
 use std::io;
 use std::io::BufRead;
+use std::time::{Duration, Instant};
 use std::iter::Peekable;
 use std::slice::Iter;
 use std::ops::Index;
@@ -217,6 +218,49 @@ pub fn starred(s: &String) -> (r: String)
 // [A15] N14: println!("{};", names.join(", ")) of the `-v` printer
 #[verifier::external_body]
 pub fn print_names_line(names: &Vec<String>)
+{ unimplemented!() }
+
+// [A15] N16: shims for what main() of src/bin/rsbdd.rs does outside the verifier's reach
+// file names are opaque (N16: `PathBuf` re-spelled `CliPath` in the argument struct)
+#[verifier::external_body]
+pub struct CliPath { p: std::path::PathBuf }
+#[verifier::external_type_specification]
+#[verifier::external_body]
+pub struct ExInstant(std::time::Instant);
+pub assume_specification [std::time::Instant::now] () -> std::time::Instant;
+pub assume_specification [std::time::Instant::elapsed] (i: &std::time::Instant) -> std::time::Duration;
+
+#[verifier::external_body]
+pub fn cli_args() -> (r: io::Result<Args>) { unimplemented!() }
+#[verifier::external_body]
+pub fn open_input(inline: &Option<String>, file: Option<CliPath>) -> (r: io::Result<DynBufRead>) { unimplemented!() }
+#[verifier::external_body]
+pub fn open_file(file: CliPath) -> (r: io::Result<DynBufRead>) { unimplemented!() }
+#[verifier::external_body]
+pub fn export_parse_tree(file: CliPath, f: &SymbolicBDD) -> (r: io::Result<()>) { unimplemented!() }
+#[verifier::external_body]
+pub fn export_dot(file: CliPath, b: &Rc<BDD>, filter: TruthTableEntry) -> (r: io::Result<()>) { unimplemented!() }
+#[verifier::external_body]
+pub fn default_diagram() -> (r: Rc<BDD>) ensures *r == BDD::False { unimplemented!() }
+#[verifier::external_body]
+pub fn print_performance_results(results: &Vec<Duration>) { unimplemented!() }
+#[verifier::external_body]
+pub fn plot_results(results: &Vec<Duration>) -> (r: io::Result<()>) { unimplemented!() }
+#[verifier::external_body]
+pub fn export_ordering(vars: &Vec<NamedSymbol>) { unimplemented!() }
+/// the names of a list of symbols (NamedSymbol.name is dropped by N9: the names enter as an uninterpreted function of the symbols)
+pub uninterp spec fn names_spec(vs: Seq<Sym>) -> Seq<Seq<char>>;
+#[verifier::external_body]
+pub fn symbol_names(vs: &Vec<NamedSymbol>) -> (r: Vec<String>)
+    ensures r@.len() == vs@.len(), Seq::new(r@.len(), |i: int| r@[i]@) == names_spec(vs@)
+{ unimplemented!() }
+#[verifier::external_body]
+pub fn star_label() -> (r: String) { unimplemented!() }
+#[verifier::external_body]
+pub fn column_widths(labels: &Vec<String>) -> (r: Vec<usize>) ensures r@.len() == labels@.len() { unimplemented!() }
+#[verifier::external_body]
+pub fn print_header(labels: &Vec<String>, widths: &Vec<usize>)
+    requires widths@.len() == labels@.len()
 { unimplemented!() }
 
 // [A14] output macros: effect on stdout/stderr not modelled
